@@ -443,3 +443,86 @@ B("RN.renderers", ["C11", "C05", "C14", "C02"], FRAG, "bounded_renderers", "From
 B("sink.text_node", ["C02", "C08", "C04"], FRAG, "bounded_text_node", "From<Text> for Node / From<CellText> for Node / escape_html_text",
   "a text element has exactly x, y and one text child = concatenation of replace_html_char over the characters",
   "all strings of length 1..3 over {<,&,>,\",',a,e-acute,wide CJK,NUL,U+0001,space} (1463 strings)")
+
+# ------------------------------------------------------------------------------------------------
+# C01: panic-site inventory (every site in non-test library code must be named here with the obligation
+# that guards it; a site that is not listed makes the run undecided - it cannot be silently uncovered)
+# ------------------------------------------------------------------------------------------------
+PANIC_SITES = {
+    ("buffer/cell_buffer.rs", "escape_line", "expect"): (1, "C15.escape_line (bounded): line_parse is repeat(0..) and cannot fail"),
+    ("buffer/cell_buffer/cell.rs", "is_intersected", "expect"): (1, "not reachable from the conversion entry points (call scan below)"),
+    ("buffer/cell_buffer/cell.rs", "snap_group", "expect"): (1, "not reachable from the conversion entry points (call scan below)"),
+    ("buffer/cell_buffer/endorse.rs", "endorse_rounded_rect", "expect"): (1, "RR.is_rounded_rect: (true, radius) always carries Some(radius)"),
+    ("buffer/cell_buffer/endorse.rs", "is_rect", "expect"): (4, "RS.is_rect_sound_m0..m2 + FP: the paired indices only name lines"),
+    ("buffer/cell_buffer/endorse.rs", "is_rounded_rect", "expect"): (5, "RR.is_rounded_rect (bounded) + FP: pairs name lines, right_angle_arcs names arcs"),
+    ("buffer/cell_buffer/span.rs", "endorse_to_arcs_and_circles", "expect"): (1, "N2.span_bounds_localize: bounds is Some for a non-empty span; spans are built non-empty (A2, Span::new)"),
+    ("buffer/cell_buffer/span.rs", "top_left", "expect"): (1, "N2.span_bounds_localize"),
+    ("buffer/fragment_buffer/fragment.rs", "is_intersecting", "expect"): (3, "not reachable from the conversion entry points (call scan below)"),
+    ("buffer/fragment_buffer/fragment/circle.rs", "from", "expect"): (1, "From<Circle> for ConvexPolygon: not reachable from the conversion entry points"),
+    ("buffer/fragment_buffer/fragment/line.rs", "heading", "unreachable!"): (1, "C01.line_heading_total"),
+    ("buffer/fragment_buffer/fragment/line.rs", "merge_circle", "panic!"): (1, "C14.line_merge_circle"),
+    ("buffer/fragment_buffer/fragment/marker_line.rs", "merge_polygon", "panic!"): (1, "merge_polygon has no caller (its call sites in Fragment::merge are commented out; call scan below)"),
+    ("buffer/fragment_buffer/fragment/rect.rs", "from", "expect"): (1, "From<Rect> for ConvexPolygon: not reachable from the conversion entry points"),
+    ("lib.rs", "to_svg_string_pretty", "expect"): (1, "fmt::Write for String never fails (std, assumed)"),
+    ("lib.rs", "to_svg_with_override_size", "expect"): (1, "fmt::Write for String never fails (std, assumed)"),
+    ("lib.rs", "to_svg_with_settings", "expect"): (1, "fmt::Write for String never fails (std, assumed)"),
+    ("map/circle_map.rs", "CIRCLES_SPAN", "assert_eq!"): (1, "C01.lazy_tables_init (input independent: decided by one forced initialisation)"),
+    ("map/circle_map.rs", "DIAMETER_CIRCLE", "assert_eq!"): (1, "C01.lazy_tables_init"),
+    ("map/circle_map.rs", "HALF_ARC_SPAN", "assert_eq!"): (4, "C01.lazy_tables_init"),
+    ("map/circle_map.rs", "HALF_ARC_SPAN", "expect"): (1, "C01.lazy_tables_init"),
+    ("map/circle_map.rs", "QUARTER_ARC_SPAN", "expect"): (1, "C01.lazy_tables_init"),
+    ("map/circle_map.rs", "THREE_QUARTERS_ARC_SPAN", "expect"): (1, "C01.lazy_tables_init"),
+    ("map/circle_map.rs", "circle_art_to_span", "assert_eq!"): (1, "C01.lazy_tables_init"),
+    ("map/circle_map.rs", "width", "expect"): (1, "C01.lazy_tables_init (CircleArt::width is only evaluated on the 22 catalogue drawings)"),
+    ("util.rs", "ord", "unreachable!"): (1, "O1.ord + absence of NaN in every contracted geometry function (Kani NaN checks on)"),
+}
+
+# functions whose panics are justified by "nobody on the conversion path calls them"
+NO_CALLER = ["is_intersected", "snap_group", "is_intersecting", "merge_polygon", "hit"]
+
+
+def scan_panic_sites(src, o):
+    import collections
+    import panic_scan
+    root = os.path.join(src, SRC)
+    found = collections.Counter(panic_scan.scan(root))
+    problems = []
+    for site, cnt in sorted(found.items()):
+        exp = PANIC_SITES.get(site)
+        if exp is None:
+            problems.append("new panic site %s::%s (%s) is not covered by any obligation" % site)
+        elif cnt > exp[0]:
+            problems.append("%d more `%s` in %s::%s than the registry covers" % (cnt - exp[0], site[2], site[0], site[1]))
+    # call scan: the NO_CALLER functions must not be called from non-test code (other than by each other)
+    for r, _d, files in os.walk(root):
+        for f in files:
+            if not f.endswith(".rs") or f.startswith("test_"):
+                continue
+            text = panic_scan.strip_tests(open(os.path.join(r, f), encoding="utf-8").read())
+            for n, line in enumerate(text.split("\n"), 1):
+                code = line.split("//")[0]
+                for name in NO_CALLER:
+                    for m in re.finditer(r"(\.|::)%s\(" % name, code):
+                        if re.search(r"\bfn\s+hit\b", "\n".join(text.split("\n")[max(0, n - 4):n])) and name == "is_intersecting":
+                            continue   # Fragment::hit is the only caller of is_intersecting and has no caller itself
+                        problems.append("%s:%d calls %s, which may panic" % (os.path.relpath(os.path.join(r, f), root), n, name))
+    if problems:
+        return False, "; ".join(problems)[:900]
+    return True, "%d panic sites in non-test code, all mapped to an obligation; no caller of %s on the conversion path" % (
+        sum(found.values()), ", ".join(NO_CALLER))
+
+
+SCANS["panic_sites"] = scan_panic_sites
+S("C01.panic_site_inventory", ["C01"], "panic_sites", "every unwrap / expect / panic! / unreachable! / assert! in non-test library code",
+  "each site is named in the registry together with the obligation that guards it; unknown sites or callers make the run undecided", "lib.rs")
+
+B("RB.boxes", ["C05", "C03", "C01"], END, "bounded_boxes",
+  "Span::endorse / Contacts::endorse_rects / endorse_rect / endorse_rounded_rect / is_rounded_rect / right_angle_arcs + the tables of + - ~ | : . , ' `",
+  "a drawn box (sharp or rounded corners, '-' or '~' edges, '|' sides with an optional ':' stretch, optional interior text) is exactly one rect with the drawn "
+  "position, size, rounding and dashing, anywhere; with a stub line attached it is not a rect",
+  "3 corner styles x 2 edge styles x widths 0..9 x heights 0..5 (thorough 0..60 x 0..30) x 3 offsets x {plain, interior text, dashed side, stub attached} "
+  "(tables behind once_cell::Lazy; 8 symbolic fragments through is_rounded_rect exceed Kani)", timeout=900, timeout_thorough=7200)
+
+B("C01.lazy_tables_init", ["C01", "C13"], CM, "bounded_lazy_tables_init", "every once_cell::Lazy table of map/*.rs",
+  "forcing every table neither panics nor trips an assert_eq! / expect inside the initialisers (they take no input)",
+  "exhaustive: there is no input to quantify over; one initialisation of all 14 tables")
